@@ -407,9 +407,12 @@ func (c *xdsClient) reqWhenReconnect(as ADSStream) error {
 }
 
 func (c *xdsClient) sendRequest(req *discoveryv3.DiscoveryRequest) {
-	// put the req to the channel
+	// put the req to the channel, unless the client has been stopped: nobody drains it any more
 	verifProduced(c.reqCh, 0)
-	c.reqCh <- req
+	select {
+	case c.reqCh <- req:
+	case <-c.closeCh:
+	}
 }
 
 func (c *xdsClient) resolveAddr(host string) string {
